@@ -6,6 +6,7 @@ import (
 	"os"
 	"sort"
 	"strings"
+	"sync"
 	"time"
 
 	"golang.org/x/tools/go/ssa"
@@ -578,7 +579,50 @@ func (e *Engine) discharge(res *UnitResult, unit, fn string, maxViol int) {
 			res.Inconcl = append(res.Inconcl, "solver "+q.Status+" on unwinding/unsupported conditions")
 		}
 	}
-	// 2. property obligations, batched; iterate to list distinct violated messages
+	// 2. property obligations, batched (optionally in parallel groups, one solver process each)
+	if e.parGroups > 1 && len(props) >= 2*e.parGroups {
+		groups := make([][]Obligation, e.parGroups)
+		for i, o := range props {
+			groups[i%e.parGroups] = append(groups[i%e.parGroups], o)
+		}
+		type gres struct {
+			q    QueryResult
+			grp  []Obligation
+			term *Term
+		}
+		out := make([]gres, len(groups))
+		for gi, g := range groups {
+			var ts []*Term
+			for _, o := range g {
+				ts = append(ts, o.t)
+			}
+			out[gi] = gres{grp: g, term: b.OrN(ts)}
+		}
+		var wg sync.WaitGroup
+		for gi := range out {
+			wg.Add(1)
+			go func(gi int) {
+				defer wg.Done()
+				s2 := NewSolver(e.solver.timeoutMs)
+				s2.tag, s2.dumpDir = fmt.Sprintf("%s-g%d", e.solver.tag, gi), e.solver.dumpDir
+				defer s2.Close()
+				out[gi].q = s2.Check(b, []*Term{out[gi].term}, "obligations")
+			}(gi)
+		}
+		wg.Wait()
+		var rest []Obligation
+		for gi, g := range out {
+			e.solver.Queries++
+			e.solver.Time += time.Duration(g.q.Secs * float64(time.Second))
+			logq(fmt.Sprintf("group %d/%d: batch of %d obligations (assertions + implicit panic guards)", gi+1, len(out), len(g.grp)), g.q)
+			if g.q.Status == "unsat" {
+				res.Discharged += len(g.grp)
+			} else {
+				rest = append(rest, g.grp...)
+			}
+		}
+		props = rest
+	}
 	remaining := props
 	seenMsg := map[string]bool{}
 	for len(remaining) > 0 {
